@@ -2,7 +2,7 @@
     Only statements about the object-store model (Model/H5.v), each closed by a lemma of
     Proofs/H5Proofs.v.  [world_le w w'] = every object of both files is still there with the
     same attributes/payload and every link it had (links and objects were only added). *)
-From Cooler Require Import Model.H5 Proofs.H5Proofs Proofs.ScoolProofs.
+From Cooler Require Import Model.H5 Model.Scool Proofs.H5Proofs Proofs.ScoolProofs.
 
 (** path resolution is monotone: adding links/objects never changes what an already resolving
     path denotes (aliasing through hard, soft and external links included) *)
@@ -65,6 +65,42 @@ Theorem C15_mv_source_unbound_partial : forall w f sp dp w',
 Proof. exact mv_source_unbound. Qed.
 Print Assumptions C15_mv_source_unbound_partial.
 
+(** mv_spec, guarded.  [mv_guard w f sp dp] is the decidable condition: in the store AFTER the new hard link
+    is made, the traversal of the destination path does not pass through the source's own link slot (the
+    source's parent group, the source name); it is false exactly for destinations inside the moved group or
+    behind a link back to it (D23) and for a root source.  [walk_av s] = path resolution that refuses slot s.
+    Then: the destination resolves to THE VERY OBJECT the source denoted, the source name is unbound, and every
+    traversal - from any start object, of any path, with any budget - that avoided the slot resolves as before *)
+Theorem C15_mv_spec : forall w f sp dp w',
+  mv w f sp f dp false = (Ok, w') -> mv_guard w f sp dp = true ->
+  exists fo o par n fp gp,
+    resolve w f sp = Found fo o /\ resolve w' f dp = Found fo o /\
+    sp = par ++ [n] /\ lookup_link w' fp gp n = None /\
+    forall k x f0 o0 q f1 o1, walk_av (fp, gp, n) k w x f0 o0 q = Found f1 o1 -> walk k w' x f0 o0 q = Found f1 o1.
+Proof. exact mv_spec. Qed.
+Print Assumptions C15_mv_spec.
+
+Theorem C15_avoiding_resolution_is_resolution : forall s k w x f o p f1 o1,
+  walk_av s k w x f o p = Found f1 o1 -> walk k w x f o p = Found f1 o1.
+Proof. exact walk_av_walk. Qed.
+Print Assumptions C15_avoiding_resolution_is_resolution.
+
+(** recreate_replaces: re-creating (append mode) at an OCCUPIED non-root path (the first create_group is refused;
+    the parent traversal does not pass through the occupied link itself): the name is rebound to a NEW group
+    that holds exactly the tables of the new collection - nothing of the old one - and every traversal that
+    avoided that link resolves exactly as before *)
+Theorem C15_recreate_replaces : forall w f p spec w' par n fp gp e0 w0 t0,
+  file_exists w f = true -> create_group w f p = (e0, w0, t0) -> e0 = EValue ->
+  split_last p = Some (par, n) -> resolve w f par = Found fp gp ->
+  walk_av (fp, gp, n) FUEL w false f 0 par = Found fp gp ->
+  create w f p false spec = (Ok, w') ->
+  exists g, child w' fp gp n = Some g /\
+    (forall m src, In (m, src) (cs_tables spec) -> table_ok w' fp g m src) /\
+    (forall m l, lookup_link w' fp g m = Some l -> In m (map fst (cs_tables spec))) /\
+    (forall k x f0 o0 q f1 o1, walk_av (fp, gp, n) k w x f0 o0 q = Found f1 o1 -> walk k w' x f0 o0 q = Found f1 o1).
+Proof. exact recreate_replaces. Qed.
+Print Assumptions C15_recreate_replaces.
+
 (** recognition is total: never an error ... *)
 Theorem C15_is_cooler_never_raises : forall w f p e, is_cooler w f p <> TRaise e.
 Proof. exact is_cooler_never_raises. Qed.
@@ -101,6 +137,27 @@ Theorem C15_listing_exact : forall w f L, no_ext w f -> nodup_keys w f -> list_c
   forall p, In p L <-> exists o2, resolves w f p f o2 /\ is_cooler_at w f o2 = true.
 Proof. exact listing_exact. Qed.
 Print Assumptions C15_listing_exact.
+
+(** totality: [ranked w rk] = the member graph is acyclic (rk strictly decreases along every member that opens),
+    [all_open w] = no member dangles or loops.  A budget above the rank of the start object suffices ... *)
+Theorem C15_traversal_terminates : forall w rk, ranked w rk -> all_open w ->
+  forall k f o name, (rk f o < k)%nat -> fst (visit k w f o name) = Ok.
+Proof. exact visit_total. Qed.
+Print Assumptions C15_traversal_terminates.
+
+(** ... so on that domain (depth below the interpreter's recursion budget) list_coolers is TOTAL, and without
+    external links it returns exactly the paths that resolve to a cooler-tagged object *)
+Theorem C15_listing_total_exact : forall w rk f, ranked w rk -> all_open w -> file_exists w f = true ->
+  (rk f 0 < VISIT_FUEL)%nat -> no_ext w f -> nodup_keys w f ->
+  exists L, list_coolers w f = (Ok, L) /\
+            forall p, In p L <-> exists o2, resolves w f p f o2 /\ is_cooler_at w f o2 = true.
+Proof. exact listing_total_exact. Qed.
+Print Assumptions C15_listing_total_exact.
+
+Theorem C15_rank_check_sound : forall w rk, file_ranked_b w rk FA = true -> file_ranked_b w rk FB = true ->
+  ranked w rk /\ all_open w.
+Proof. exact file_ranked_b_sound. Qed.
+Print Assumptions C15_rank_check_sound.
 
 Theorem C15_wellformed_check_sound : forall w f, file_wf_b w f = true -> no_ext w f /\ nodup_keys w f.
 Proof. exact file_wf_b_sound. Qed.
@@ -199,3 +256,22 @@ Example ex_C15_listing :
   file_wf_b w_listed FA = true /\
   list_coolers w_listed FA = (Ok, [sx; sxy; ["y"%string]; ["y"; "y"]%string]).
 Proof. exact ex_listing_exact. Qed.
+
+(** non-vacuity of C15_mv_spec / C15_recreate_replaces / C15_listing_total_exact *)
+Example ex_C15_mv_guard :
+  let w := run world0 [OCreate FA sx false (tiny 1); OCreate FA sxy false (tiny 2)] in
+  mv_guard w FA sx ["z"%string] = true /\ fst (mv w FA sx FA ["z"%string] false) = Ok /\
+  mv_guard w FA sx sxy = false /\ mv_guard w FA sx ["x"; "q"]%string = false.
+Proof. exact ex_mv_guard. Qed.
+Example ex_C15_recreate :
+  let w := run world0 [OCreate FA sx false (tiny 1); OCreate FA sxy false (tiny 2); OCreate FA ["z"%string] false (tiny 3)] in
+  let r := create w FA sx false (tiny 9) in
+  fst (fst (create_group w FA sx)) = EValue /\ fst r = Ok /\
+  is_cooler (snd r) FA sx = TTrue /\ is_cooler w FA sxy = TTrue /\ is_cooler (snd r) FA sxy = TFalse /\
+  walk_av (FA, 0%nat, "x"%string) FUEL w false FA 0 [] = Found FA 0%nat /\
+  resolve (snd r) FA ["z"%string] = resolve w FA ["z"%string].
+Proof. exact ex_recreate. Qed.
+Example ex_C15_listing_total :
+  file_ranked_b w_listed (height 12 w_listed) FA = true /\ file_ranked_b w_listed (height 12 w_listed) FB = true /\
+  Nat.ltb (height 12 w_listed FA 0) VISIT_FUEL = true /\ file_wf_b w_listed FA = true.
+Proof. exact ex_listing_total. Qed.
